@@ -331,6 +331,8 @@ pub struct Ctx {
     pub canary: Option<Canary>,
     pub canary_fired: u64,
     wlog: Vec<u32>,
+    /// C20: only the charge is this property's business; semantic differences belong to C01-C08
+    pub cycles_only: bool,
 }
 
 /// Built-in self-test of the comparison: perturb the reference for selected cases and require a mismatch.
@@ -367,6 +369,7 @@ impl Ctx {
             canary: None,
             canary_fired: 0,
             wlog: Vec::with_capacity(64),
+            cycles_only: false,
         }
     }
 
@@ -475,6 +478,16 @@ impl Ctx {
     }
 
     fn compare(&self, c: &Case, ro: &RefOut, act: &Actual) -> Option<Diff> {
+        if self.cycles_only {
+            if let (Class::Ok, Actual::Ok(states)) = (ro.class, act) {
+                if let Some(exp) = self.expected_cycles(ro) {
+                    if exp != *states as u32 {
+                        return Some(Diff { what: format!("states: expected {} ({}), got {}", exp, cyc_text(ro), states) });
+                    }
+                }
+            }
+            return None;
+        }
         match (ro.class, act) {
             (Class::Any, _) => None,
             (Class::Err, Actual::Err(_)) => None,
@@ -732,7 +745,7 @@ impl Ctx {
             if got.is_none() || got == exp {
                 continue; // rejected by the bus, or rewritten with the value it already had
             }
-            if !open && !self.frozen && !canary_on {
+            if !open && !self.frozen && !canary_on && !self.cycles_only {
                 self.st.violations_total += 1;
                 if self.st.violations.len() < MAX_VIOLATIONS_KEPT {
                     self.st.violations.push(Violation {
